@@ -2,8 +2,10 @@
    (Generated/TablesTime.v: src_noteoff_due, translated from the source text on every run), decides exactly like the
    comparison of the exact times of the model (Sched/Model.v: no_time n <=? cur).  Depends on the axioms of Coq's
    classical real numbers (standard library) only. *)
-From Coq Require Import ZArith Reals.
-From Isobar Require Import Base.FloatGrid Base.FloatRound8 Generated.TablesTime Base.FloatDue Base.FloatDueSrc.
+From Coq Require Import ZArith Reals Lra Lia.
+From Flocq Require Import Core.
+From Isobar Require Import Base.FloatGrid Base.FloatRound8 Generated.TablesTime Base.FloatDue Base.FloatDueSrc
+                           Base.FloatGridSrc Base.FloatStamp Base.FloatStampSrc.
 Open Scope R_scope.
 
 (* ts = the float timestamp of a pending note-off, t = the float track time on tick k; both within E <= 1/(6*10^8) of the
@@ -15,3 +17,41 @@ Theorem C02_float_noteoff_due_is_exact : forall (U tpb tau k b : Z) (t ts E : R)
   src_noteoff_due ts t = (b <=? k * tau)%Z.
 Proof. exact src_noteoff_due_exact. Qed.
 Print Assumptions C02_float_noteoff_due_is_exact.
+
+(* Run level: the closeness of the float timestamp is no longer a hypothesis.  The timestamp is the term generated from
+   the source text of Track.perform_event (src_noteoff_timestamp t d g = RN (t + RN (d * g)): note_off_time =
+   self.current_time + event.duration * gate), the clock is the source's own (src_track_step iterated from 0), the test
+   the source's own.  A note performed on tick k whose exact length D * G is b' units of 1/(tau*tpb) beat is released on
+   tick k' iff k' >= k + ceil(b' / tau) - the exact release tick, at every resolution tpb <= 2^20, for float inputs d, g
+   within relative 2^-51 of D, G (also when d * g is an inexact float product, the situation in which the code before
+   9bb39e5 released late at 512 ticks per beat), all times up to 450000 beats and 2^32 ticks. *)
+Theorem C02_float_release_tick_is_exact : forall (tpb tau : Z) (k k' : nat) (b' : Z) (d g D G T : R),
+  noteoff_admissible tpb tau k b' d g D G T -> (Z.of_nat k' <= 2 ^ 32)%Z -> IZR (Z.of_nat k') / IZR tpb <= T ->
+  src_noteoff_due (src_noteoff_timestamp (src_track_clock tpb k) d g) (src_track_clock tpb k')
+  = (Z.of_nat k + cdivZ b' tau <=? Z.of_nat k')%Z.
+Proof. exact src_noteoff_release_exact. Qed.
+Print Assumptions C02_float_release_tick_is_exact.
+
+(* non-vacuity: the witness of the old defect - duration 1.1, gate (5/512)/1.1 as Python computes it - is admissible at
+   512 ticks per beat (5/512 beat = 5 ticks: released exactly 5 ticks later) and at 480 (4.6875 ticks: 5 ticks later) *)
+Example C02_float_release_nonvacuous_512 : forall k k' : nat, (Z.of_nat k <= 200000000)%Z -> (Z.of_nat k' <= 200000000)%Z ->
+  src_noteoff_due (src_noteoff_timestamp (src_track_clock 512 k) (RN (11 / 10)) (RN (RN (5 / 512) / RN (11 / 10))))
+                  (src_track_clock 512 k')
+  = (Z.of_nat k + 5 <=? Z.of_nat k')%Z.
+Proof.
+  intros k k' Hk Hk'.
+  apply (C02_float_release_tick_is_exact 512 1 k k' 5 _ _ (11 / 10) (25 / 2816) 450000 (noteoff_admissible_512 k Hk)).
+  - change (2 ^ 32)%Z with 4294967296%Z. lia.
+  - apply IZR_le in Hk'. unfold Rdiv. lra.
+Qed.
+Example C02_float_release_nonvacuous_480 : forall k k' : nat, (Z.of_nat k <= 200000000)%Z -> (Z.of_nat k' <= 200000000)%Z ->
+  src_noteoff_due (src_noteoff_timestamp (src_track_clock 480 k) (RN (11 / 10)) (RN (RN (5 / 512) / RN (11 / 10))))
+                  (src_track_clock 480 k')
+  = (Z.of_nat k + 5 <=? Z.of_nat k')%Z.
+Proof.
+  intros k k' Hk Hk'.
+  apply (C02_float_release_tick_is_exact 480 16 k k' 75 _ _ (11 / 10) (25 / 2816) 450000 (noteoff_admissible_480 k Hk)).
+  - change (2 ^ 32)%Z with 4294967296%Z. lia.
+  - apply IZR_le in Hk'. unfold Rdiv. lra.
+Qed.
+Print Assumptions C02_float_release_nonvacuous_512.
